@@ -60,18 +60,17 @@ Example sample_prog_legal : legal_prog sample_prog = true.
 Proof. vm_compute. reflexivity. Qed.
 
 (* ---------------------------------------------------------------- what lies outside the guards *)
-(* R1 (genuine defect, reproduced end-to-end as a hang of the traced program): a cleanup pad calls
-   _Unwind_Resume at the very slot where the frame it has just seen unwound had its return address;
-   the wrapper's mcount_rstack_restore writes that dead frame's parent_ip (13) over the wrapper's own
-   return address (14) *)
+(* regression witness of the defect repaired by /repo 0bd540c (was: R1, a hang of the traced program): a
+   cleanup pad calls _Unwind_Resume at the very slot where the frame it has just seen unwound had its
+   return address.  The wrapper now drops that frame's entry first; the program is legal and in step. *)
 Definition witness_resume_alias : list op :=
-  [Call 0 100 11 103; Call 1 90 12 99; Call 2 80 13 89; Throw; Unwind; Resume 80 14].
-Lemma resume_alias_refuted :
-  legal_prog (firstn 5 witness_resume_alias) = true /\
-  legal_prog witness_resume_alias = false /\
+  [Call 0 100 11 103; Call 1 90 12 99; Call 2 80 13 89; Throw; Unwind; Resume 80 14; Unwind; Catch 99; Ret 100].
+Example resume_alias_now_in_step :
+  legal_prog witness_resume_alias = true /\
   exists s obs, lrun init witness_resume_alias = Some (s, obs) /\
-    map o_target obs = [0; 0; 0; 0; 0; 13] /\ ok_run witness_resume_alias obs = false.
-Proof. split; [vm_compute; reflexivity|]. split; [vm_compute; reflexivity|]. eexists; eexists. vm_compute. auto. Qed.
+    map o_target obs = [0; 0; 0; 0; 0; 14; 0; 0; 11] /\ ok_run witness_resume_alias obs = true /\
+    map rec_code (out s) = [(0, 0, 0); (0, 1, 1); (0, 2, 2); (1, 2, 2); (1, 1, 1); (1, 0, 0)].
+Proof. split; [vm_compute; reflexivity|]. eexists; eexists. vm_compute. auto. Qed.
 
 (* R2: a PLT function tail-calls a traced function which throws and catches; the full rehook writes the
    trampoline of the OLDEST entry of the chain, so the return runs plthook_exit on an mcount entry
